@@ -24,10 +24,12 @@ Two kinds of entry points:
   that is broken -- deliberately weaker than "equals what the implementation
   does".  The caller then adopts the real layout.
 
-`VARIANTS` names behaviours of the implementation that differ from the letter
-of the documentation and that the check reports under their own fingerprint
-(see checks/c05.py); the exact transitions take a `variants` set so that the
-check can say *which* documented rule a deviating result departs from.
+Accepted alternative: a single operation inserted with EARLIEST whose preceding moment
+conflicts (or whose index is 0) goes, by the strategy's text, "into a new moment at the desired
+location"; the implementation deliberately adds it to the existing moment *at* the insert
+location when it is conflict-free there (`_can_add_op_at(k, op)`), which the property statement
+acknowledges (EARLIEST may share the moment at the insertion point).  Both placements are
+accepted (`insert_single_options`); neither breaks the order clause.
 """
 from __future__ import annotations
 
@@ -39,11 +41,6 @@ INLINE = "INLINE"
 EARLIEST = "EARLIEST"
 LATEST = "LATEST"
 STRATEGIES = (EARLIEST, NEW, INLINE, NEW_THEN_INLINE, LATEST)
-
-# Named departures of the implementation from the documentation's wording.
-V_EARLIEST_JOIN = "earliest-joins-moment-at-insert-location"
-V_BATCH_SHIFT = "batch_insert-shifts-by-returned-index"
-VARIANTS = (V_EARLIEST_JOIN, V_BATCH_SHIFT)
 
 
 class AOp:
@@ -168,10 +165,10 @@ def flatten_items(items: Sequence) -> List[AOp]:
 # ----------------------------------------------------------------------------------------------
 # exact transitions
 
-def insert_single(L: Layout, index: int, op: AOp, strategy: str,
-                  variants: FrozenSet[str] = frozenset()) -> Tuple[Layout, int, int]:
+def insert_single(L: Layout, index: int, op: AOp, strategy: str, join: bool = False) -> Tuple[Layout, int, int]:
     """One operation, by the text of insert_strategy.py.  Returns (layout, p, k):
-    p = moment index the operation is in, k = clamped insertion index."""
+    p = moment index the operation is in, k = clamped insertion index.  `join`: take the
+    accepted alternative for EARLIEST (see module docstring) where it applies."""
     n = len(L)
     k = clamp_index(n, index)
     new = copy_layout(L)
@@ -202,7 +199,7 @@ def insert_single(L: Layout, index: int, op: AOp, strategy: str,
         while j >= 0 and not conf_moment(op, L[j]):
             j -= 1
         if j == k - 1:
-            if V_EARLIEST_JOIN in variants and k < n and not conf_moment(op, L[k]):
+            if join and k < n and not conf_moment(op, L[k]):
                 new[k].append(op)
                 return new, k, k
             new.insert(k, [op])
@@ -228,6 +225,17 @@ def insert_single(L: Layout, index: int, op: AOp, strategy: str,
         new[j - 1].append(op)
         return new, j - 1, k
     raise ValueError(strategy)
+
+
+def insert_single_options(L: Layout, index: int, op: AOp, strategy: str) -> List[Tuple[Layout, int, int]]:
+    """Every accepted outcome: the documented one first, then the EARLIEST alternative if it differs."""
+    first = insert_single(L, index, op, strategy)
+    out = [first]
+    if strategy == EARLIEST:
+        alt = insert_single(L, index, op, strategy, join=True)
+        if not same_layout(alt[0], first[0]):
+            out.append(alt)
+    return out
 
 
 def insert_moment(L: Layout, index: int, ops: Sequence[AOp]) -> Tuple[Layout, int]:
@@ -343,33 +351,38 @@ def slice_layout(L: Layout, sl: slice, qubits: Optional[Iterable[int]] = None) -
 
 
 def batch_insert_exact(L: Layout, insertions: Sequence[Tuple[int, object]],
-                       variants: FrozenSet[str] = frozenset()) -> Layout:
+                       joins: Optional[Sequence[bool]] = None) -> Layout:
     """batch_insert where every entry is one operation or one Moment and all indices differ.
 
     "All insertions are done with the strategy EARLIEST"; "if you insert an operation at index
     2 and at index 4, but the insert at index 2 causes a new moment to be created, then the
     insert at 4 will actually occur at index 5 to account for the shift from the new moment."
     So: indices refer to the circuit before the call; later ones move by the number of moments
-    the earlier ones created.
+    the earlier ones created.  `joins[i]`: take the accepted EARLIEST alternative for the i-th
+    entry (in index order).
     """
     cur = copy_layout(L)
     shift = 0
-    for i, item in sorted(insertions, key=lambda e: e[0]):
+    for e, (i, item) in enumerate(sorted(insertions, key=lambda e: e[0])):
         at = i + shift
         before = len(cur)
         if isinstance(item, MMoment):
-            cur, p = insert_moment(cur, at, item)
-            k = p
-            r = p + 1
+            cur, _ = insert_moment(cur, at, item)
         else:
-            cur, p, k = insert_single(cur, at, item, EARLIEST, variants)
-            r = max(k, p + 1)
-        if V_BATCH_SHIFT in variants:
-            if r > at:
-                shift += r - at
-        else:
-            shift += len(cur) - before
+            cur, _, _ = insert_single(cur, at, item, EARLIEST, join=bool(joins and joins[e]))
+        shift += len(cur) - before
     return cur
+
+
+def batch_insert_options(L: Layout, insertions: Sequence[Tuple[int, object]]) -> List[Layout]:
+    """All accepted outcomes (documented placement first), each entry free to take the alternative."""
+    n = len(insertions)
+    out: List[Layout] = []
+    for mask in range(1 << n):
+        lay = batch_insert_exact(L, insertions, [bool(mask >> e & 1) for e in range(n)])
+        if not any(same_layout(lay, o) for o in out):
+            out.append(lay)
+    return out
 
 
 # ----------------------------------------------------------------------------------------------
@@ -751,15 +764,25 @@ def _batch_loose_aligned(L: Layout, N: Layout, insertions: Sequence[Tuple[int, S
     out: List[Problem] = []
     pos = positions(N)
     n = len(L)
+    n_at: Dict[int, int] = {}
+    for i0, _ in insertions:
+        n_at[clamp_index(n, i0)] = n_at.get(clamp_index(n, i0), 0) + 1
     for i0, items in insertions:
         k = clamp_index(n, i0)
-        for x in flatten_items(items):
+        flat = flatten_items(items)
+        # one operation, alone at its index: a single EARLIEST insert at that boundary, so the
+        # "before everything after the insertion point" clause applies to it without exemption
+        alone = len(items) == 1 and len(flat) == 1 and n_at[k] == 1
+        for x in flat:
             jx = pos[x.uid][0]
             for i, m in enumerate(L):
-                if i >= k:
-                    break
                 for y in m:
-                    if conf(x, y) and al[i] >= jx:
+                    if not conf(x, y):
+                        continue
+                    if i < k and al[i] >= jx:
                         out.append(("C05-ORDER", f"{x.describe()} ({jx}) inserted at {k} is not after "
                                                  f"{y.describe()} ({al[i]})"))
+                    if i >= k and alone and jx >= al[i]:
+                        out.append(("C05-ORDER", f"{x.describe()} ({jx}) inserted alone at {k} is not before "
+                                                 f"{y.describe()} ({al[i]}) which was after the insertion point"))
     return out
